@@ -312,6 +312,10 @@ def match_known(known, r, o):
         pat = k.get('obligation', '')
         if pat and pat not in o['obligation']:
             continue
+        # text="..." narrows a finding to the failed CLAUSE: it must occur in the verifier's diagnostic (which quotes the clause)
+        txt = k.get('text', '')
+        if txt and txt not in (o.get('diagnostic') or ''):
+            continue
         return k
     return None
 
